@@ -275,6 +275,7 @@ def run(chk):
     _jdnnum_rule(chk, prog)
     _querypure_rule(chk, prog)
     _pairguard_rule(chk, prog)
+    _producesib_rule(chk, prog)
 
 
 def _argsync_rule(chk, prog):
@@ -515,3 +516,43 @@ def _pairguard_rule(chk, prog):
         else:
             chk.ok(rule, "%s: every caller tests the parity first" % name)
     chk.floor(rule, 2, n)
+
+
+def _producesib_rule(chk, prog):
+    """parser/produce has two forms - the value, or the value still wrapped in its tuple with line and column - and one
+    job: take the oldest finished value off the argument stack.  The bookkeeping is the same for both: the pending
+    count, the stack height and the root frame's share of the stack go down together (parser/state walks the stack
+    backwards by each frame's share).  The two functions must update the same counters."""
+    rule = "C11-PRODUCESIB"
+    chk.rule(rule, "janet_parser_produce and janet_parser_produce_wrapped decrement the same set of parser counters")
+    tu = prog.tus["parse.c"]
+    sets = {}
+    for name in ("janet_parser_produce", "janet_parser_produce_wrapped"):
+        fn = tu.funcs.get(name)
+        if fn is None:
+            raise AnalysisBroken("parse.c: %s not found" % name)
+        chk.analysed(fn)
+        dec = set()
+        for x in fn.nodes:
+            tgt = None
+            if x.k == "un" and x.op in ("--", "post--", "pre--") and x.kids:
+                tgt = x.kids[0]
+            elif x.k == "asg" and x.op == "-=":
+                tgt = x.kids[0]
+            if tgt is not None:
+                m = next((y for y in [tgt] + list(tgt.walk()) if y.k == "mem"), None)
+                if m is not None:
+                    dec.add("%s.%s" % (m.rec, m.field))
+        sets[name] = dec
+    chk.instance(rule)
+    a, b = sets["janet_parser_produce"], sets["janet_parser_produce_wrapped"]
+    if not a:
+        raise AnalysisBroken("janet_parser_produce: no decremented counters recognised")
+    if a == b:
+        chk.ok(rule, "both decrement %s" % ", ".join(sorted(a)))
+    else:
+        who = "janet_parser_produce_wrapped" if a - b else "janet_parser_produce"
+        chk.violation(rule, "parse.c", who, "counters", tu.funcs[who].loc,
+                      "%s does not decrement %s, which its sibling does: after (parser/produce p true) the root frame still claims a value "
+                      "that left the stack, and parser/state walks past the bottom of the argument stack" % (who, ", ".join(sorted((a - b) or (b - a)))))
+    chk.floor(rule, 1)
